@@ -146,17 +146,20 @@ ELEM = ["ElementPropagator::{initialise_at_root,debug_propagate_from_scratch,laz
         "propagate_index_bounds_within_array,propagate_rhs_bounds_based_on_array,"
         "propagate_index_based_on_domain_intersection_with_rhs,propagate_equality}",
         "RightHandSideReason bitfield", "StoredReason::DynamicLazy resolution"] + CTX
-H("h_element::element_2", "pumpkin-solver", "element", ALLO, "quick", ELEM,
-  "x1,x2,rhs: any i32 interval; index: any sub-interval of [-2,3] with 1 hole; V,W",
-  "array length 2, posting (<=2 propagate calls), lazy reasons resolved at propagation time and "
-  "again in the final state, unwind 9",
-  covers=["propagation at posting", "lazy reason resolved"], full_range=True)
+H("h_element::element_2", "pumpkin-solver", "element", ALLO, "thorough", ELEM,
+  "x1,x2,rhs: any i32 interval; index: any sub-interval of [-2,3]; V,W",
+  "array length 2, posting (1 propagate call), lazy reasons resolved at propagation time and "
+  "again in the final state, unwind 4",
+  covers=["propagation at posting", "lazy reason resolved"], full_range=True, timeout=3000,
+  mem_gb=30)
+H("h_element::element_2_index_hole", "pumpkin-solver", "element", ALLO, "thorough", ELEM,
+  "as element_2 with 1 hole in the index domain", "array length 2, posting, 1 hole",
+  covers=["propagation at posting", "lazy reason resolved"], full_range=True, timeout=3600,
+  mem_gb=40)
 H("h_element::element_2_change", "pumpkin-solver", "element", ALLO, "thorough", ELEM,
-  "as element_2 without holes + one symbolic change", "array length 2, posting + 1 change",
-  covers=["propagation at posting", "lazy reason resolved"], full_range=True, timeout=2400)
-H("h_element::element_3", "pumpkin-solver", "element", ALLO, "thorough", ELEM,
-  "x1..x3,rhs any interval; index sub-interval of [-2,4] with 1 hole", "array length 3, posting",
-  covers=["propagation at posting", "lazy reason resolved"], full_range=True, timeout=2400)
+  "as element_2 + one symbolic change", "array length 2, posting + 1 change",
+  covers=["propagation at posting", "lazy reason resolved"], full_range=True, timeout=3600,
+  mem_gb=45)
 
 REIF = ["ReifiedPropagator::{new,initialise_at_root,notify,notify_backtrack,synchronise,"
         "propagate,propagate_reification,map_propagation_status,filter_enqueue_decision,"
@@ -177,19 +180,153 @@ H("h_reified::reified_ne_2_changes", "pumpkin-solver", "reified", ALLO, "thoroug
   "r -> x1+x2!=rhs, posting + 2 changes", full_range=True,
   covers=["propagation after a change"], timeout=3000)
 
+# ---- C18: selectors ---------------------------------------------------------------------------
+BR_STUBS = STUBS_S[:1] + ["Random (trait object) -> AnyRandom: arbitrary value inside the "
+                          "requested range (contract of Random)"]
+SEL_CTX = ["SelectionContext::{lower_bound,upper_bound,contains,get_size_of_domain,"
+           "is_integer_fixed,random}", "Assignments::evaluate_predicate"]
+for _name, _sel, _width in [
+    ("value_in_domain_min", "InDomainMin", None), ("value_in_domain_max", "InDomainMax", None),
+    ("value_in_domain_split", "InDomainSplit", None),
+    ("value_in_domain_split_random", "InDomainSplitRandom", None),
+    ("value_reverse_in_domain_split", "ReverseInDomainSplit", None),
+    ("value_out_domain_min", "OutDomainMin", None), ("value_out_domain_max", "OutDomainMax", None),
+    ("value_random_splitter", "RandomSplitter", None),
+    ("value_in_domain_median", "InDomainMedian", 5), ("value_in_domain_middle", "InDomainMiddle", 5),
+    ("value_in_domain_random", "InDomainRandom", 5),
+    ("value_in_domain_interval", "InDomainInterval", 5),
+    ("value_out_domain_median", "OutDomainMedian", 5),
+    ("value_out_domain_random", "OutDomainRandom", 5),
+]:
+    H("h_branching::" + _name, "pumpkin-solver", "branching", ["K-branch", "O7"], "quick",
+      ["<%s as ValueSelector<DomainId>>::select_value" % _sel] + SEL_CTX,
+      "one unfixed domain: " + ("any i32 interval" if _width is None else
+                                "any window of at most %d values" % _width) +
+      " with 2 holes; random source arbitrary",
+      ("full i32 width" if _width is None else "domain width <= %d" % _width) + ", 2 holes",
+      timeout=900, mem_gb=6, stubs=BR_STUBS, only_props=["C18"], full_range=_width is None)
+H("h_branching::value_in_domain_random_literal", "pumpkin-solver", "branching",
+  ["K-branch", "O7"], "quick", ["<InDomainRandom as ValueSelector<Literal>>::select_value"],
+  "a free literal; random source arbitrary", "0-1 domain", timeout=900, mem_gb=6,
+  stubs=BR_STUBS, only_props=["C18"])
+for _name, _sel in [
+    ("variable_input_order", "InputOrder"), ("variable_smallest", "Smallest"),
+    ("variable_largest", "Largest"), ("variable_first_fail", "FirstFail"),
+    ("variable_anti_first_fail", "AntiFirstFail"), ("variable_max_regret", "MaxRegret"),
+    ("variable_occurrence", "Occurrence"), ("variable_random", "RandomSelector"),
+    ("variable_proportional_domain_size", "ProportionalDomainSize"),
+    ("variable_smallest_random_tie_breaker", "Smallest + RandomTieBreaker"),
+]:
+    H("h_branching::" + _name, "pumpkin-solver", "branching", ["K-branch", "O7"], "quick",
+      ["<%s as VariableSelector<DomainId>>::select_variable" % _sel,
+       "InOrderTieBreaker / RandomTieBreaker"] + SEL_CTX,
+      "3 variables, each any i32 interval (any subset fixed); random source arbitrary",
+      "3 variables, full i32 width, no holes", timeout=900, mem_gb=6, stubs=BR_STUBS,
+      only_props=["C18"], full_range=True)
+
+# ---- kernels ----------------------------------------------------------------------------------
+H("h_kernels::predicate_negation", "pumpkin-solver", "kernels", ["K-pred"], "quick",
+  ["<Predicate as Not>::not"], "any predicate kind, any i32 constant, any point",
+  "full i32; [x>=i32::MIN] / [x<=i32::MAX] excluded (no representable negation)", timeout=600,
+  mem_gb=4, stubs=[], only_props=["C02", "C05"], full_range=True)
+H("h_kernels::predicate_mutual_exclusion", "pumpkin-solver", "kernels", ["K-pred"], "quick",
+  ["Predicate::is_mutually_exclusive_with"], "two predicates (same or different variable), any "
+  "constants, any point", "full i32", timeout=600, mem_gb=4, stubs=[],
+  only_props=["C02", "C05"], full_range=True)
+H("h_kernels::predicate_mutual_exclusion_is_complete_for_one_variable", "pumpkin-solver",
+  "kernels", ["K-pred"], "quick", ["Predicate::is_mutually_exclusive_with"],
+  "two predicates over one variable of the kinds the function handles, any constants",
+  "full i32", timeout=600, mem_gb=4, stubs=[], only_props=["C05"], full_range=True)
+H("h_kernels::solution_values", "pumpkin-solver", "kernels", ["K-sol"], "quick",
+  ["ProblemSolution::{get_integer_value,get_literal_value}", "AffineView::{lower_bound,"
+   "upper_bound}", "Literal::{get_true_predicate,not}"],
+  "x any i32, b in {0,1}; view scale in {1,-1,2,-3}, any offset with representable image",
+  "full i32", timeout=600, mem_gb=4, only_props=["C01"], full_range=True)
+H("h_kernels::blocking_clause_removes_exactly_one_solution", "pumpkin-solver", "kernels",
+  ["K-block"], "quick", ["solution_iterator::get_blocking_clause", "Solution::{get_domains,"
+                          "get_integer_value}", "Assignments::get_domains"],
+  "a full assignment s of 4 variables (any i32 values) and any other point", "4 variables, "
+  "full i32", timeout=600, mem_gb=4, only_props=["C03"], full_range=True)
+H("h_kernels::post_predicate_fails_iff_falsified", "pumpkin-solver", "kernels", ["K-assume"],
+  "quick", ["Assignments::{post_predicate,evaluate_predicate}"],
+  "any domain with 1 hole, any predicate, any value x", "full i32, 1 hole (+1 made by the post)", timeout=600,
+  mem_gb=4, only_props=["C05", "C12"], full_range=True)
+
+# ---- E2 replay targets doubling as Kani harnesses (differential check of the two engines) ------
+for _n in ("e2_div_floor", "e2_div_ceil", "e2_view_lower_bound_predicate",
+           "e2_view_upper_bound_predicate", "e2_view_map"):
+    H("h_e2::" + _n, "pumpkin-solver", "e2-kani", ["K-view", "K-round", "O7"], "thorough",
+      ["<i32 as NumExt>::{div_ceil,div_floor}", "AffineView::{lower_bound_predicate,"
+       "upper_bound_predicate,lower_bound,upper_bound,map,invert}"],
+      "a,b / scale,offset,value,x: any i32 under the documented preconditions", "full i32",
+      timeout=3000, mem_gb=8, only_props=["C12", "C16"], full_range=True)
+
+# ---- drcp-format -------------------------------------------------------------------------------
+DR_STUBS = ["S4 alloc::fmt::format -> empty string (error messages only)"]
+H("h_atomic::int_atomic_negation", "drcp-format", "drcp", ["K-atomic", "O7"], "quick",
+  ["<IntAtomicConstraint as Not>::not"], "any comparison, any i64 value, any i64 point",
+  "full i64", timeout=600, mem_gb=4, stubs=DR_STUBS, only_props=["C19"], full_range=True)
+H("h_atomic::bool_and_wrapped_atomic_negation", "drcp-format", "drcp", ["K-atomic", "O7"],
+  "quick", ["<BoolAtomicConstraint as Not>::not", "<AtomicConstraint as Not>::not"],
+  "any bool atomic; any int atomic with value strictly inside the i64 range", "full i64 minus "
+  "the two boundary constants", timeout=600, mem_gb=4, stubs=DR_STUBS, only_props=["C19"])
+for _n, _what in [("writer_nogood", "Nogood::write_string"),
+                  ("reader_nogood", "reader::proof_step / nogood_step"),
+                  ("writer_inference", "Inference::write_string"),
+                  ("reader_inference", "reader::proof_step / inference_step"),
+                  ("deletion_and_conclusion", "Deletion / Conclusion write_string + proof_step")]:
+    H("h_steps::" + _n, "drcp-format", "drcp", ["K-write", "K-read", "O7"], "thorough",
+      [_what], "step shape symbolic (0-2 literals/premises, optional hints of 0-2 ids, optional "
+      "conclusion/tag/label from a list of 2), numbers symbolic with 1-2 decimal digits",
+      "ids and literal codes in [1,99], <= 2 list items, unwind 6", timeout=3000, mem_gb=20,
+      stubs=DR_STUBS, only_props=["C19"])
+
+# ---- DIMACS ------------------------------------------------------------------------------------
+DI = ["DimacsParser::{parse_chunk,start_literal,finish_literal,finish_clause,complete}"]
+for _n, _tier, _what in [
+    ("dimacs_step_line_start", "quick", "at the start of a line"),
+    ("dimacs_step_comment", "quick", "inside a comment"),
+    ("dimacs_step_between", "quick", "between tokens"),
+    ("dimacs_step_minus", "quick", "a '-' has been read"),
+    ("dimacs_step_pos_1", "quick", "inside a positive 1-digit token"),
+    ("dimacs_step_neg_1", "quick", "inside a negative 1-digit token"),
+    ("dimacs_step_pos_2", "quick", "inside a positive 2-digit token"),
+    ("dimacs_step_neg_2", "thorough", "inside a negative 2-digit token"),
+    ("dimacs_step_pos_3", "thorough", "inside a positive 3-digit token"),
+    ("dimacs_step_neg_3", "thorough", "inside a negative 3-digit token"),
+]:
+    H(_n, "dimacs", "dimacs", ["K-dimacs", "O7"], _tier, DI,
+      "arbitrary valid parser state of shape '%s' (symbolic digits, 0-1 pending literals, <= 5 "
+      "emitted clauses) + one arbitrary byte (all 256 values)" % _what,
+      "one inductive step; header state and 'p' at line start excluded", timeout=2400,
+      mem_gb=14, stubs=[], only_props=["C14"],
+      covers=[] if _n == "dimacs_step_comment" else ["rejecting step"])
+H("dimacs_complete", "dimacs", "dimacs", ["K-dimacs", "O7"], "quick", DI,
+  "arbitrary valid parser state + arbitrary declared clause count <= 6", "complete() only",
+  timeout=1800, mem_gb=12, stubs=[], only_props=["C14"])
+
 
 # property -> what is claimed (filled as harness families are added)
 PROPERTY_TAGS = {
+    "C03": ["K-block"],
+    "C05": ["K-pred", "K-assume"],
+    "C14": ["K-dimacs", "O7"],
+    "C18": ["K-branch", "O7"],
+    "C19": ["K-atomic", "K-write", "K-read", "O7"],
     # which tags count as a violation of the property when they fail in a harness serving it
-    "C01": ["O5"],
-    "C02": ["O1", "O2", "O3"],
+    "C01": ["O5", "K-sol"],
+    "C02": ["O1", "O2", "O3", "K-pred"],
     "C06": ["O2", "O3"],
-    "C12": ["O1"],
-    "C16": ["O7", "O1", "O2", "O3"],
+    "C12": ["O1", "K-view", "K-round", "K-assume"],
+    "C16": ["O7", "O1", "O2", "O3", "K-view", "K-round"],
     "C17": ["O1", "O2", "O3", "O4"],
     "C08": ["O1", "O2", "O3", "O4", "O5"],
     "C09": ["O1", "O2", "O3", "O4", "O5"],
 }
+
+
+# properties that are served only by harnesses naming them explicitly
+KERNEL_ONLY_PROPS = ("C03", "C05", "C14", "C18", "C19")
 
 
 def harnesses_for(prop, tier):
@@ -202,6 +339,8 @@ def harnesses_for(prop, tier):
         if h["only_props"] is not None:
             if prop in h["only_props"]:
                 out.append(h)
+            continue
+        if prop in KERNEL_ONLY_PROPS:
             continue
         tags = set(PROPERTY_TAGS.get(prop, []))
         if prop == "C16" and not h["full_range"]:
